@@ -1,8 +1,8 @@
-import HdVerif.Proofs.TilingRegion
+import HdVerif.Proofs.TilingFull
 /-! # C04  Tiled images reassemble to the exact total pixel matrix
 
 Property theorems only (helper lemmas: `Proofs/TilingStd.lean`, `Proofs/Tiling.lean`, `Proofs/TilingGrid.lean`,
-`Proofs/TilingRegion.lean`, `Proofs/TilingCut.lean`).  All statements are about the executable model
+`Proofs/TilingRegion.lean`, `Proofs/TilingCut.lean`, `Proofs/TilingFull.lean`).  All statements are about the executable model
 `Model/Tiling.lean`, whose integer arithmetic is *regenerated from /repo's current source* on every run:
 `Gen.stdRowColIndices` (T3, `_standardize_row_column_indices`), `Gen.tiledRegion` (T5, offsets, expected frame
 count and the eight slice bounds of `_iterate_indices_for_tiled_region`), `Gen.tileArrayBounds` (T6,
@@ -156,7 +156,113 @@ theorem tile_count_exact (lut : List LutRow) (R C th tw : Int) (ht : 1 ≤ th) (
   obtain ⟨g1, g2, _, g4, g5, g6, _, g8⟩ := stdRowCol_range_num hstd
   rw [expectedCount_eq, selected_count R C th tw ht hw lut hg r0 r1 c0 c1 g1 g2 hr g4 g5 g6 hc g8]
 
+/-! ## Positions implied by frame order (TILED_FULL) -/
+
+/-- **TILED_FULL.**  The table a reader derives from `iter_tiled_full_frame_data` for a single-channel image puts
+frame `k` at the `k`-th position of the row-major grid; so if frame `k` holds the part of `M` under that tile,
+every accepted request returns `M[r0-1 : r1-1, c0-1 : c1-1]` — the same as with explicit positions
+(`region_assembly`), for every matrix and tile size. -/
+theorem region_assembly_tiled_full {α} (z : α) (M : Img α) (frames : List (Img α)) (ch : Int) (R C th tw : Int)
+    (ht : 1 ≤ th) (hw : 1 ≤ tw) (hR : 1 ≤ R) (hC : 1 ≤ C)
+    (hframes : ∀ (k : Nat) (p : Int × Int), (gridPos R C th tw)[k]? = some p →
+      ∃ fr, frames[k]? = some fr ∧ FrameCutFrom M R C th tw p.1 p.2 fr)
+    (rs re cs ce : Option Int) (ai am : Bool) (r0 r1 c0 c1 : Int)
+    (hstd : stdRowColIndices rs re cs ce R C ai false = .ok (r0, r1, c0, c1)) (hr : r0 ≤ r1) (hc : c0 ≤ c1) :
+    ∃ lut out, tiledFullLut [some ch] th tw R C = .ok lut ∧
+      readRegion z lut frames R C th tw none rs re cs ce ai true am = .ok (r1 - r0, c1 - c0, out) ∧
+      ∀ i j, 0 ≤ i → i < r1 - r0 → 0 ≤ j → j < c1 - c0 → out i j = M (r0 - 1 + i) (c0 - 1 + j) :=
+  readRegion_tiled_full z M frames ch R C th tw ht hw hR hC hframes rs re cs ce ai am r0 r1 c0 c1 hstd hr hc
+
+/-! ## Omitted tiles -/
+
+/-- **`sparse_zero_fill`.**  A table holding only some of the grid tiles (each at most once; any order), frames cut
+from `M`, every absent grid tile entirely zero in `M`: with `allow_missing_combinations` (what
+`Segmentation.get_total_pixel_matrix` passes) every accepted request returns the requested part of `M` — the
+gaps read as zeros. -/
+theorem sparse_zero_fill {α} (z : α) (M : Img α) (lut : List LutRow) (frames : List (Img α)) (R C th tw : Int)
+    (ht : 1 ≤ th) (hw : 1 ≤ tw) (hnd : (lut.map pos).Nodup)
+    (hcut : TableCutFrom M R C th tw lut frames)
+    (hzero : ∀ p ∈ gridPos R C th tw, p ∉ lut.map pos →
+      ∀ a b, 0 ≤ a → a < th → 0 ≤ b → b < tw → p.1 - 1 + a < R → p.2 - 1 + b < C → M (p.1 - 1 + a) (p.2 - 1 + b) = z)
+    (rs re cs ce : Option Int) (ai full : Bool) (r0 r1 c0 c1 : Int)
+    (hstd : stdRowColIndices rs re cs ce R C ai false = .ok (r0, r1, c0, c1)) (hr : r0 ≤ r1) (hc : c0 ≤ c1) :
+    ∃ out, readRegion z lut frames R C th tw none rs re cs ce ai full true = .ok (r1 - r0, c1 - c0, out) ∧
+      ∀ i j, 0 ≤ i → i < r1 - r0 → 0 ≤ j → j < c1 - c0 → out i j = M (r0 - 1 + i) (c0 - 1 + j) :=
+  readRegion_sparse_zero_fill z M lut frames R C th tw ht hw hnd hcut hzero rs re cs ce ai full r0 r1 c0 c1 hstd hr hc
+
+/-- With tiles missing and *without* `allow_missing_combinations` (what `Image.get_total_pixel_matrix` passes) a
+TILED_SPARSE read whose selection does not have the expected number of frames is refused, never silently
+zero-filled. -/
+theorem missing_tiles_refused {α} (z : α) (lut : List LutRow) (frames : List (Img α)) (R C th tw : Int) (chan : Option Int)
+    (rs re cs ce : Option Int) (ai : Bool) (r0 r1 c0 c1 : Int)
+    (hstd : stdRowColIndices rs re cs ce R C ai false = .ok (r0, r1, c0, c1))
+    (hcnt : expectedCount r0 r1 c0 c1 th tw ≠ .ok (((chanRows chan lut).filter (selected r0 r1 c0 c1 th tw)).length : Int)) :
+    ∃ e, readRegion z lut frames R C th tw chan rs re cs ce ai false false = .error e := by
+  unfold readRegion
+  rw [hstd]
+  rw [expectedCount_eq] at hcnt
+  simp only [expectedCount_eq]
+  split
+  · exact ⟨_, rfl⟩
+  · rw [List.length_mergeSort]
+    rw [if_pos]
+    · exact ⟨_, rfl⟩
+    · simp only [Bool.not_false, Bool.true_and, decide_eq_true_eq]
+      intro h
+      exact hcnt (by rw [h])
+
+/-! ## Masks tiled by the library read back as the same matrix -/
+
+/-- **`tile_then_read`** (TILED_SPARSE).  `Segmentation(tile_pixel_array=True)` — `get_tile_array` at the offsets of
+`compute_tile_positions_per_frame`, edge tiles zero-padded, empty tiles omitted when `omit_empty_frames` (all
+kept when everything is empty) — followed by `get_total_pixel_matrix` for segment `c`:  for every matrix size,
+every tile size (dividing or not), every list of segment matrices with distinct numbers, and every accepted
+request with `start ≤ end`, the array read back is the requested part of the matrix handed in for `c`. -/
+theorem tile_then_read {α} [BEq α] [LawfulBEq α] (z : α) (Ms : List (Int × Img α)) (R C tr tc : Int)
+    (hr : 1 ≤ tr) (hc : 1 ≤ tc) (hR : 1 ≤ R) (hC : 1 ≤ C) (hnd : (Ms.map Prod.fst).Nodup)
+    (c : Int) (M : Img α) (hM : (c, M) ∈ Ms) (omitEmpty : Bool)
+    (rs re cs ce : Option Int) (ai : Bool) (r0 r1 c0 c1 : Int)
+    (hstd : stdRowColIndices rs re cs ce R C ai false = .ok (r0, r1, c0, c1)) (hr01 : r0 ≤ r1) (hc01 : c0 ≤ c1) :
+    ∃ out, tileThenRead z Ms R C tr tc false omitEmpty c rs re cs ce ai = .ok (r1 - r0, c1 - c0, out) ∧
+      ∀ i j, 0 ≤ i → i < r1 - r0 → 0 ≤ j → j < c1 - c0 → out i j = M (r0 - 1 + i) (c0 - 1 + j) :=
+  tileThenRead_sparse z Ms R C tr tc hr hc hR hC hnd c M hM omitEmpty rs re cs ce ai r0 r1 c0 c1 hstd hr01 hc01
+
+/-- **TILED_FULL and TILED_SPARSE give the same result**: with nothing omitted the table a reader derives from frame
+order is the table the constructor writes explicitly, so both organisations read back identically — hence
+(by `tile_then_read`) as the matrix handed in. -/
+theorem tile_then_read_full {α} [BEq α] [LawfulBEq α] (z : α) (Ms : List (Int × Img α)) (R C tr tc : Int)
+    (hr : 1 ≤ tr) (hc : 1 ≤ tc) (hR : 1 ≤ R) (hC : 1 ≤ C) (hnd : (Ms.map Prod.fst).Nodup)
+    (c : Int) (M : Img α) (hM : (c, M) ∈ Ms)
+    (rs re cs ce : Option Int) (ai : Bool) (r0 r1 c0 c1 : Int)
+    (hstd : stdRowColIndices rs re cs ce R C ai false = .ok (r0, r1, c0, c1)) (hr01 : r0 ≤ r1) (hc01 : c0 ≤ c1) :
+    tileThenRead z Ms R C tr tc true false c rs re cs ce ai = tileThenRead z Ms R C tr tc false false c rs re cs ce ai ∧
+    ∃ out, tileThenRead z Ms R C tr tc true false c rs re cs ce ai = .ok (r1 - r0, c1 - c0, out) ∧
+      ∀ i j, 0 ≤ i → i < r1 - r0 → 0 ≤ j → j < c1 - c0 → out i j = M (r0 - 1 + i) (c0 - 1 + j) := by
+  have e := tileThenRead_full_eq_sparse z Ms R C tr tc hr hc hR hC c rs re cs ce ai
+  refine ⟨e, ?_⟩
+  rw [e]
+  exact tileThenRead_sparse z Ms R C tr tc hr hc hR hC hnd c M hM false rs re cs ce ai r0 r1 c0 c1 hstd hr01 hc01
+
+/-- TILED_FULL with `omit_empty_frames` is refused by the constructor. -/
+theorem tiled_full_omit_refused {α} [BEq α] (z : α) (Ms : List (Int × Img α)) (R C tr tc c : Int)
+    (rs re cs ce : Option Int) (ai : Bool) :
+    tileThenRead z Ms R C tr tc true true c rs re cs ce ai = .error .value := by
+  unfold tileThenRead
+  rfl
+
+/-- The tile `get_tile_array` cuts at a grid position: the matrix under the tile, zeros in the padding of edge tiles. -/
+theorem tile_array_content {α} (z : α) (M : Img α) (R C ro co tr tc : Int) (hr : 1 ≤ tr) (hc : 1 ≤ tc)
+    (h1 : 1 ≤ ro) (h2 : ro ≤ R) (h3 : 1 ≤ co) (h4 : co ≤ C) :
+    ∃ fr, getTileArray z M R C ro co tr tc = .ok fr ∧
+      ∀ a b, 0 ≤ a → a < tr → 0 ≤ b → b < tc →
+        fr a b = if ro - 1 + a < R ∧ co - 1 + b < C then M (ro - 1 + a) (co - 1 + b) else z :=
+  getTileArray_spec z M R C ro co tr tc hr hc h1 h2 h3 h4
+
 /-! ## Non-vacuity: a 5 × 4 matrix in 2 × 3 tiles (neither size divides), frames stored in a permuted order -/
+
+end HdVerif.C04
+namespace HdVerif.Examples.C04
+open HdVerif HdVerif.Gen HdVerif.Tiling HdVerif.TilingLemmas HdVerif.C04
 
 /-- matrix `M i j = 10 i + j`, tiles holding junk `-1` in their padding -/
 def exM : Img Int := fun i j => 10 * i + j
@@ -185,4 +291,43 @@ example : ∃ out, readRegion (0 : Int) exLut exFrames 5 4 2 3 none (some (-4)) 
 example : ∃ e, readRegion (0 : Int) exLut exFrames 5 4 2 3 none (some (-6)) none none none true false false = .error e :=
   region_refused_outside 0 exLut exFrames 5 4 2 3 none (some (-6)) none none none true false false (Or.inl (by decide))
 
-end HdVerif.C04
+/-- `tile_then_read` and `tile_then_read_full` instantiated: two segments (one of them empty everywhere, so with
+`omit_empty_frames` all its tiles and none of the other's are dropped), 5 × 4 in 2 × 3 tiles, last two rows requested
+with negative 1-based numbers -/
+example : ∃ out, tileThenRead (0 : Int) [(1, exM), (2, fun _ _ => 0)] 5 4 2 3 false true 2 (some (-2)) none none (some (-1)) false
+    = .ok (2, 3, out) ∧ ∀ i j, 0 ≤ i → i < 2 → 0 ≤ j → j < 3 → out i j = 0 := by
+  obtain ⟨out, h, hp⟩ := tile_then_read (0 : Int) [(1, exM), (2, fun _ _ => 0)] 5 4 2 3 (by decide) (by decide) (by decide) (by decide)
+    (by decide) 2 (fun _ _ => 0) (by simp) true (some (-2)) none none (some (-1)) false 4 6 1 4 (by decide) (by decide) (by decide)
+  exact ⟨out, h, fun i j a b c d => hp i j a b c d⟩
+example : ∃ out, tileThenRead (0 : Int) [(1, exM), (2, fun _ _ => 0)] 5 4 2 3 true false 1 (some (-2)) none none (some (-1)) false
+    = .ok (2, 3, out) ∧ out 1 2 = 42 := by
+  obtain ⟨_, out, h, hp⟩ := tile_then_read_full (0 : Int) [(1, exM), (2, fun _ _ => 0)] 5 4 2 3 (by decide) (by decide) (by decide) (by decide)
+    (by decide) 1 exM (by simp) (some (-2)) none none (some (-1)) false 4 6 1 4 (by decide) (by decide) (by decide)
+  exact ⟨out, h, by rw [hp 1 2 (by decide) (by decide) (by decide) (by decide)]; rfl⟩
+/-- `sparse_zero_fill` instantiated: only the tile at (3, 1) is stored; the matrix is zero elsewhere -/
+def exSparseM : Img Int := fun i j => if 2 ≤ i ∧ i < 4 ∧ j < 3 then 7 else 0
+example : ∃ out, readRegion (0 : Int) [⟨3, 1, 0, 0⟩] [fun a b => exSparseM (2 + a) b] 5 4 2 3 none none none none none false false true
+    = .ok (5, 4, out) ∧ out 2 1 = 7 ∧ out 0 0 = 0 := by
+  obtain ⟨out, h, hp⟩ := sparse_zero_fill (0 : Int) exSparseM [⟨3, 1, 0, 0⟩] [fun a b => exSparseM (2 + a) b] 5 4 2 3 (by decide) (by decide)
+    (by decide)
+    (by
+      intro r hr
+      simp only [List.mem_cons, List.not_mem_nil, or_false] at hr
+      subst hr
+      exact ⟨_, rfl, fun a b _ _ _ _ _ _ => by simp only; congr 1; omega⟩)
+    (by
+      intro p hp hn a b ha0 ha1 hb0 hb1 h1 h2
+      obtain ⟨p1, p2⟩ := p
+      have hmem : (p1, p2) ∈ [((1 : Int), (1 : Int)), (1, 4), (3, 1), (3, 4), (5, 1), (5, 4)] := by
+        have : gridPos 5 4 2 3 = [((1 : Int), (1 : Int)), (1, 4), (3, 1), (3, 4), (5, 1), (5, 4)] := by decide
+        rw [← this]; exact hp
+      simp only [List.map_cons, List.map_nil, pos, List.mem_cons, List.not_mem_nil, or_false, Prod.mk.injEq] at hn hmem
+      simp only [exSparseM]
+      rw [if_neg]
+      omega)
+    none none none none false false 1 6 1 5 (by decide) (by decide) (by decide)
+  refine ⟨out, h, ?_, ?_⟩
+  · rw [hp 2 1 (by decide) (by decide) (by decide) (by decide)]; decide
+  · rw [hp 0 0 (by decide) (by decide) (by decide) (by decide)]; decide
+
+end HdVerif.Examples.C04
